@@ -164,6 +164,13 @@ def action_for(op: list) -> Optional[Tuple[str, dict]]:
     return None
 
 
+def registered_file_actions() -> set:
+    """The file / folder actions the real action registry knows (every one of them must be driven by the rig)."""
+    from primaite.game.agent.actions.abstract import AbstractAction
+    import primaite.game.agent.actions  # noqa: F401
+    return {k for k in AbstractAction._registry if k.startswith(("node-file-", "node-folder-"))}
+
+
 def _file_s(f) -> str:
     return f"#{f.uuid}:{w(f.name)}:{1 if f.deleted else 0}:a{f.num_access}"
 
@@ -475,6 +482,35 @@ def full_alphabet() -> List[list]:
 def exhaustive(alphabet: List[list], depth: int):
     for seq in itertools.product(alphabet, repeat=depth):
         yield [list(o) for o in seq]
+
+
+def graph_cases(alphabet: List[list], depth: int, restore_duration: Optional[int], run_model, stats: dict):
+    """State-graph family: breadth-first over the MODEL's reachable states (canonical dump, uuids renamed per state), and from
+    every distinct state reached in fewer than `depth` operations EVERY operation of the alphabet, along the first path found
+    to that state. Yields the operation lists level by level; `stats` receives states / transitions per level.
+    (Pruning assumes that the code's future behaviour is a function of the state the dump shows — which is what every
+    yielded trace, compared step by step, keeps testing; the brute-force families do not rely on it.)"""
+    seen = {"init"}
+    frontier: List[list] = [[]]
+    for d in range(1, depth + 1):
+        cands = [p + [list(a)] for p in frontier for a in alphabet]
+        lines: List[str] = []
+        bounds = []
+        for ops in cands:
+            ls = model_lines({"surface": "fs", "restore_duration": restore_duration, "ops": ops})
+            bounds.append(len(lines) + len(ls) - 1)
+            lines += ls
+        out = run_model(lines)
+        new = []
+        for ops, last in zip(cands, bounds):
+            key = canon([out[last]])[0].split(" | ", 1)[1]
+            if key not in seen:
+                seen.add(key)
+                new.append(ops)
+        stats[d] = {"transitions": len(cands), "new_states": len(new), "states_so_far": len(seen)}
+        for ops in cands:
+            yield ops
+        frontier = new
 
 
 def gen_op(rng: Rng, folders: List[str], files: List[str]) -> list:
